@@ -329,7 +329,11 @@ def hygiene_scan(root=None):
             if not f.endswith(".v"):
                 continue
             path = os.path.join(d, f)
-            src = strip_comments(open(path).read())
+            try:
+                text = open(path).read()
+            except FileNotFoundError:      # a generated file being replaced by a concurrent check: it is scanned by the run that writes it
+                continue
+            src = strip_comments(text)
             src = re.sub(r'"(?:[^"]|"")*"', '""', src)
             depth = 0
             for ln, line in enumerate(src.splitlines(), 1):
